@@ -347,6 +347,14 @@ fn diagnose(eng: &Engine, base: &Path, db: Db, spec: &Spec, b: u64, baseline: &O
     while let Some(p) = parent(chain.last().unwrap()) {
         chain.push(p);
     }
+    // a layout with several extra-file placements is explained by a single placement that fails alone
+    if chain.iter().any(|s| matches!(s, Spec::ExtraAll(_) | Spec::ImmExtras | Spec::TopLevel(0))) {
+        let at = chain.len() - 1;
+        for i in 0..extras(db.first, db.n).len() {
+            chain.insert(at, Spec::ExtraOne(i, false));
+            chain.insert(at, Spec::ExtraOne(i, true));
+        }
+    }
     for s in chain.iter().rev() {
         let (es, class, desc) = build(db, s);
         let complete = covered_complete(&es, db.p, db.first, b);
@@ -378,13 +386,19 @@ fn eval_variant(eng: &Engine, base: &Path, db: Db, spec: &Spec, light: bool, bl:
     let combos: Vec<(DirV, Chan)> = if light {
         vec![(DirV::Db, Chan::Tree)]
     } else {
-        DirV::ALL.iter().flat_map(|d| Chan::ALL.iter().map(move |c| (*d, *c))).collect()
+        DirV::LAYOUTS.iter().flat_map(|d| Chan::ALL.iter().map(move |c| (*d, *c))).collect()
     };
     for b in db.first..=db.last() + 1 {
         let Some(baseline) = bl.root(db, b) else { continue };
         let complete = covered_complete(&es, db.p, db.first, b);
         let mut base_chan_ok = true;
+        // is the cache-less computation fine for the directory currently handed in?
+        let mut imm_tree_ok = true;
+        let mut tree_failed: Vec<DirV> = vec![];
         for &(dirv, ch) in &combos {
+            if ch == Chan::Tree {
+                imm_tree_ok = true;
+            }
             rep.eval();
             let out = run_chan(eng, base, &dbdir, dirv, ch, b);
             if out.is_root() {
@@ -423,12 +437,38 @@ fn eval_variant(eng: &Engine, base: &Path, db: Db, spec: &Spec, light: bool, bl:
                     ),
                     layout_case(db, &des, &ddesc, b, DirV::Db, Chan::Tree, &key),
                 );
-            } else if base_chan_ok {
-                let key = format!("C12/root-depends-on-entry-point:{}@{}", ch.name(), dirv.name());
+            } else if ch == Chan::Tree {
+                // (another directory handed in, no cache)
+                imm_tree_ok = false;
+                tree_failed.push(dirv);
+                if base_chan_ok {
+                    let key = "C12/root-depends-on-directory-handed-in";
+                    rep.violation(
+                        key,
+                        format!(
+                            "{:?}, layout {desc}: compute_merkle_tree without cache at beacon {b} answers {} when handed the {} and the baseline {} when handed the database directory",
+                            db, out.show(), dirv.name(), baseline.show()
+                        ),
+                        layout_case(db, &es, &desc, b, dirv, ch, key),
+                    );
+                }
+            } else if base_chan_ok && (dirv == DirV::Db || imm_tree_ok) {
+                // the cache-less computation on the same directory is fine: name what differs
+                let dir = dirv.path(&dbdir);
+                let epoch = if ch == Chan::Message { 9 } else { 0 };
+                let key = if !conforms(&eng.merkle(None, &dir, b, epoch), baseline, complete) {
+                    "C12/root-depends-on-beacon-epoch".to_string()
+                } else if ch == Chan::TreeJson {
+                    "C12/root-depends-on-cache-history:json".to_string()
+                } else if !conforms(&eng.merkle(Some(eng.memory_cache()), &dir, b, epoch), baseline, complete) {
+                    "C12/root-depends-on-cache-history:memory".to_string()
+                } else {
+                    "C12/root-depends-on-entry-point:compute_protocol_message".to_string()
+                };
                 rep.violation(
                     &key,
                     format!(
-                        "{:?}, layout {desc}: {} via {} at beacon {b} answers {}, while compute_merkle_tree without cache on the database directory answers the baseline {}",
+                        "{:?}, layout {desc}: {} via {} at beacon {b} (an empty cache: no earlier computation) answers {}, while compute_merkle_tree without cache answers the baseline {}",
                         db, ch.name(), dirv.name(), out.show(), baseline.show()
                     ),
                     layout_case(db, &es, &desc, b, dirv, ch, &key),
@@ -437,8 +477,11 @@ fn eval_variant(eng: &Engine, base: &Path, db: Db, spec: &Spec, light: bool, bl:
             // else: already reported through the (db-dir, no-cache) evaluation of this layout
         }
         // range digests: the digest of every covered file, by name
-        if !light && b <= db.last() {
-            for dirv in DirV::ALL {
+        if !light && b <= db.last() && base_chan_ok {
+            for dirv in DirV::LAYOUTS {
+                if tree_failed.contains(&dirv) {
+                    continue;
+                }
                 rep.eval();
                 let got = eng.range(None, &dirv.path(&dbdir), db.first, b);
                 let want = bl.expected_range(db.p, &es, db.first, b);
@@ -664,14 +707,22 @@ fn perturb_case(db: Db, es: &[Entry], b: u64, target: &str, op: &Op, key: &str) 
 }
 
 /// all perturbations of one file of one database at one beacon
-fn eval_perturb(eng: &Engine, base: &Path, db: Db, es: &[Entry], b: u64, target: usize, ops: &[Op], rep: &mut Report) {
+#[allow(clippy::too_many_arguments)]
+fn eval_perturb(eng: &Engine, base: &Path, db: Db, es: &[Entry], b: u64, target: usize, ops: &[Op], bl: Option<&Baselines>, rep: &mut Report) {
     let _ = std::fs::remove_dir_all(base);
     let dbdir = materialize(base, es);
     let r0 = eng.merkle(None, &dbdir, b, 1);
     rep.eval();
-    if !r0.is_root() {
-        // reported by part A (this layout is ExtraAll + one far file); nothing to compare against
-        rep.outcome("perturbation-skipped:no-reference-root");
+    if !r0.is_root() || bl.is_some_and(|bl| bl.root(db, b).is_some_and(|x| *x != r0)) {
+        // the unperturbed layout (all extra placements + one far file) already disagrees with the
+        // canonical layout: the cause is named by part A; perturbing it would only repeat it
+        rep.outcome("MISMATCH");
+        let key = "C12/cacheless-root-differs-from-baseline";
+        rep.violation(
+            key,
+            format!("{:?} beacon {b}: the layout used for perturbations answers {} before any perturbation, the canonical layout answers {:?}", db, r0.show(), bl.and_then(|bl| bl.root(db, b)).map(|o| o.show())),
+            layout_case(db, es, "perturbation-base", b, DirV::Db, Chan::Tree, key),
+        );
         let _ = std::fs::remove_dir_all(base);
         return;
     }
@@ -840,7 +891,12 @@ fn eval_history(eng: &Engine, cache_file: &Path, dbdir: &Path, db: Db, es: &[Ent
                     rep.outcome(if complete { "history-step-root-equals-baseline" } else { "history-step-missing-beacon→error" });
                 } else {
                     rep.outcome("MISMATCH");
-                    let key = format!("C12/root-depends-on-cache-history:{}", prov.name());
+                    let cold = eng.merkle(None, &dir, b, 1);
+                    let key = if conforms(&cold, baseline, complete) {
+                        format!("C12/root-depends-on-cache-history:{}", prov.name())
+                    } else {
+                        "C12/cacheless-root-differs-from-baseline".to_string()
+                    };
                     rep.violation(
                         &key,
                         format!(
@@ -860,7 +916,12 @@ fn eval_history(eng: &Engine, cache_file: &Path, dbdir: &Path, db: Db, es: &[Ent
                     rep.outcome("history-step-range-digests-equal-reference");
                 } else {
                     rep.outcome("MISMATCH");
-                    let key = format!("C12/range-digests-depend-on-cache-history:{}", prov.name());
+                    let cold = eng.range(None, &dir, lo, hi);
+                    let key = if cold.as_ref().ok() == Some(&want) {
+                        format!("C12/range-digests-depend-on-cache-history:{}", prov.name())
+                    } else {
+                        "C12/cacheless-range-digests-differ-from-baseline".to_string()
+                    };
                     rep.violation(
                         &key,
                         format!(
@@ -902,11 +963,24 @@ fn observations(eng: &Engine, scratch: &Path, bl: &Baselines, db: Db) -> Value {
     run("second-immutable-dir:ledger/immutable created after immutable/", canon.clone().into_iter().chain(lookalike_trio("ledger/immutable")).collect());
     run("second-immutable-dir:volatile/x/immutable created before", lookalike_trio("volatile/x/immutable").into_iter().chain(canon.clone()).collect());
     run("second-immutable-dir:immutable/immutable (nested)", canon.clone().into_iter().chain(lookalike_trio("immutable/immutable")).collect());
+    // the same, when the parent of the database directory is handed in (<dir>/immutable does not
+    // exist, the directory is found by a walk in listing order)
+    for (name, es) in [
+        ("second-immutable-dir, parent of db handed in: ledger/immutable created after immutable/", canon.clone().into_iter().chain(lookalike_trio("ledger/immutable")).collect::<Vec<Entry>>()),
+        ("second-immutable-dir, parent of db handed in: ledger/immutable created before immutable/", lookalike_trio("ledger/immutable").into_iter().chain(canon.clone()).collect::<Vec<Entry>>()),
+    ] {
+        let out = eval_once(eng, &scratch.join("obs"), &es, DirV::Parent, Chan::Tree, b);
+        obs.insert(name.to_string(), json!(verdict(&out)));
+    }
+    let mut run = |name: &str, es: Vec<Entry>| {
+        let out = eval_once(eng, &scratch.join("obs"), &es, DirV::Db, Chan::Tree, b);
+        obs.insert(name.to_string(), json!(verdict(&out)));
+    };
     // immutable extension, stem not a number
     run("immutable/abc.chunk (immutable extension, stem not a number)", canon.clone().into_iter().chain([file("immutable/abc.chunk", 5)]).collect());
     run("immutable/.tmp.chunk (hidden temp file with immutable extension)", canon.clone().into_iter().chain([file("immutable/.tmp.chunk", 5)]).collect());
     // numeric stem in another spelling: counts as an immutable file of that number
-    run(&format!("immutable/{}.chunk (unpadded spelling of a covered number)", db.first + 1000), canon.clone().into_iter().chain([file(&format!("immutable/{}.chunk", db.first + 1000), 5)]).collect());
+    run(&format!("immutable/{}.chunk (4-digit name, number beyond the beacon)", db.first + 1000), canon.clone().into_iter().chain([file(&format!("immutable/{}.chunk", db.first + 1000), 5)]).collect());
     run(&format!("immutable/{}.chunk (unpadded spelling of covered number {})", db.first, db.first), canon.clone().into_iter().chain([file(&format!("immutable/{}.chunk", db.first), 5)]).collect());
     run("immutable/99999999999999999999.chunk (number beyond u64)", canon.clone().into_iter().chain([file("immutable/99999999999999999999.chunk", 5)]).collect());
     // stale cache: a covered byte changes after the cache was warmed (outside the property: the
@@ -983,7 +1057,7 @@ fn replay(ctx: &Ctx, rep: &mut Report, v: &Value) {
                 rep.machinery_error("replay file: bad perturbation".into());
                 return;
             };
-            eval_perturb(&eng, &scratch.join("replay"), db, &es, b, ti, &[op], rep);
+            eval_perturb(&eng, &scratch.join("replay"), db, &es, b, ti, &[op], None, rep);
         }
         "cache-history" => {
             let prov = if v["cache"].as_str() == Some("json") { Prov::Json } else { Prov::Memory };
@@ -1140,7 +1214,7 @@ pub fn run(ctx: &Ctx) -> ! {
         if is_covered(&es[t].rel, db, b) {
             r.add_extra("partB_perturbations_of_covered_files", ops.len() as u64);
         }
-        eval_perturb(&eng, &scratch.join(format!("b{i}")), db, &es, b, t, &ops, &mut r);
+        eval_perturb(&eng, &scratch.join(format!("b{i}")), db, &es, b, t, &ops, Some(&bl), &mut r);
         r
     });
     for r in b_parts {
